@@ -122,7 +122,8 @@ static int       app_max_tokens = 48;
 static long      app_total_cb; /* callbacks delivered in this case */
 
 /* scripted actions */
-enum { AA_START = 1, AA_CANCEL, AA_SET_SERVERS, AA_SET_SORTLIST, AA_REINIT, AA_READONLY, AA_DUP, AA_JUMP, AA_LOCALADDR };
+enum { AA_START = 1, AA_CANCEL, AA_SET_SERVERS, AA_SET_SORTLIST, AA_REINIT, AA_READONLY, AA_DUP, AA_JUMP, AA_LOCALADDR, AA_ADVERSARY };
+static void prov_inject(void);
 typedef struct {
   int64_t t;
   int     kind;
@@ -1028,6 +1029,9 @@ static void app_do_action(app_act_t *a)
     case AA_JUMP:
       sim_now_us += (int64_t)a->arg * 1000;
       sim_note("time_jump");
+      break;
+    case AA_ADVERSARY:
+      prov_inject();
       break;
     case AA_LOCALADDR:
       sim_cfg.local4[3] = (uint8_t)(sim_cfg.local4[3] + 1);
